@@ -165,6 +165,11 @@ def _toy_mcmc(r):
                 if r.get("use_acceptance_rate"):
                     ad["use_acceptance_rate"] = True
                 op["adaptors"].append(ad)
+            for ad in op["adaptors"]:
+                if r.get("adapt_start"):
+                    ad["start"] = r["adapt_start"]
+                if r.get("adapt_end"):
+                    ad["end"] = r["adapt_end"]
             ops.append(op)
     if r.get("transformed_op"):
         ops.append(dict({"id": "op.y", "type": "ScalerOperator", "parameters": "y", "weight": 1.0, "scaler": 0.7}, **common))
